@@ -21,14 +21,27 @@ import (
 // errorCollector manages a list of errors. The zero value is an empty list.
 type errorCollector struct {
 	errors []error
+	seen   map[*wireErr]bool
 }
 
-// add appends any non-nil errors to the collector.
+// add appends any non-nil errors to the collector. An error that the
+// collector already holds is not added again: the errors of a provider set
+// arrive once for every path along which the set is included.
 func (ec *errorCollector) add(errs ...error) {
 	for _, e := range errs {
-		if e != nil {
-			ec.errors = append(ec.errors, e)
+		if e == nil {
+			continue
 		}
+		if w, ok := e.(*wireErr); ok {
+			if ec.seen[w] {
+				continue
+			}
+			if ec.seen == nil {
+				ec.seen = make(map[*wireErr]bool)
+			}
+			ec.seen[w] = true
+		}
+		ec.errors = append(ec.errors, e)
 	}
 }
 
